@@ -66,6 +66,8 @@ package internals
 
 //@ specfun last(Log) Ptr as *ZogIssue
 //@ smt (assert (forall ((l Log) (x Ptr)) (! (= (zz_last (zz_push l x)) x) :pattern ((zz_push l x)))))
+// Ghost counter: number of test functions invoked so far in this execution.
+//@ ghost tf_ran Int
 //@ spec LC(c) = L(c.ExecCtx.Errors)
 //@ spec zrep(s) = (istype(s, *ErrsList) ==> ((s.(*ErrsList).List == nil) <==> (L(s) == empty()))) && (istype(s, *ErrsMap) ==> ((s.(*ErrsMap).M == nil) <==> (L(s) == empty())))
 //@ spec wfexec(x) = x != nil && x.Errors != nil && x.Fmter != nil && (istype(x.Errors, *ErrsList) || istype(x.Errors, *ErrsMap)) && zrep(x.Errors)
@@ -88,8 +90,10 @@ package internals
 //@   modifies e.Message
 
 // A bool test is pure; its verdict is left unconstrained (any test).
+//@ specfun bverdict(Fn, Iface) Bool
 //@ functype BoolTFunc(self, val, ctx)
 //@   pure
+//@   ensures result == bverdict(self, val)
 
 // A test function either leaves the node untouched (verdict: pass) or does exactly what
 // ctx.AddIssue(ctx.IssueFromTest(ctx.Test, val)) does (verdict: fail).
@@ -99,7 +103,8 @@ package internals
 //@ functype TFunc(self, val, ctx)
 //@   requires[C12] ctx_is_schemactx: istype(ctx, *SchemaCtx) && wfctx(ctx.(*SchemaCtx))
 //@   requires[C12,C01] test_set: ctx.(*SchemaCtx).Test != nil
-//@   modifies ctx.(*SchemaCtx).Exit, LC(ctx.(*SchemaCtx))
+//@   modifies ctx.(*SchemaCtx).Exit, LC(ctx.(*SchemaCtx)), tf_ran
+//@   ghost_update tf_ran := tf_ran + 1
 //@   ensures[C01,C02,C05] outcome: tfunc_pass(ctx.(*SchemaCtx)) || tfunc_fail(ctx.(*SchemaCtx), val)
 //@   ensures zrep(ctx.(*SchemaCtx).ExecCtx.Errors)
 
